@@ -24,6 +24,10 @@ def main():
     for sid in ids:
         prop = sid.split("-")[0]
         patch = os.path.join(V, "seeded", sid, "patch.diff")
+        meta = json.load(open(os.path.join(V, "seeded", sid, "meta.json")))
+        if meta.get("obsolete_since"):
+            results[sid] = {"property": prop, "obsolete_since": meta["obsolete_since"], "note": meta.get("obsolete_note", "")[:200]}
+            continue
         sh("git checkout -q -- . && git clean -fdq", cwd=SCRATCH)
         a = sh(f"git apply {patch}", cwd=SCRATCH)
         if a.returncode != 0:
